@@ -56,6 +56,23 @@ func pkcs7decode(buf []byte, _ int) []byte {
 	return buf[:n]
 }
 
+// pkcs7decodeChecked removes PKCS7 padding from a buffer received from the
+// network. Unlike pkcs7decode it never trusts the pad length byte: the
+// encryption version byte that selects padding removal is not covered by the
+// message authentication, so the plaintext handed in here may not be padded
+// at all.
+func pkcs7decodeChecked(buf []byte, blockSize int) ([]byte, error) {
+	n := len(buf)
+	if n == 0 {
+		return nil, fmt.Errorf("cannot remove padding from an empty payload")
+	}
+	pad := int(buf[n-1])
+	if pad < 1 || pad > blockSize || pad > n {
+		return nil, fmt.Errorf("invalid padding length %d", pad)
+	}
+	return buf[:n-pad], nil
+}
+
 // encryptOverhead returns the maximum possible overhead of encryption by version
 func encryptOverhead(vsn encryptionVersion) int {
 	switch vsn {
@@ -191,7 +208,7 @@ func decryptPayload(keys [][]byte, msg []byte, data []byte) ([]byte, error) {
 		if err == nil {
 			// Remove the PKCS7 padding for vsn 0
 			if vsn == 0 {
-				return pkcs7decode(plain, aes.BlockSize), nil
+				return pkcs7decodeChecked(plain, aes.BlockSize)
 			} else {
 				return plain, nil
 			}
